@@ -216,13 +216,21 @@ def impl(case):
             scratch = RecPool(0, 0, 1, 1)
             for j, (t, i) in enumerate(case["table"]):
                 if j in case["early"]:
-                    (sk(scratch, interval=1) if j % 2 else sk.s(interval=1) >> scratch)
+                    # (the rules declared so far may not make a valid controller by themselves, e.g. a lone
+                    # threshold 0 - that says nothing about the controller created at the end)
+                    try:
+                        (sk(scratch, interval=1) if j % 2 else sk.s(interval=1) >> scratch)
+                    except REJECT:
+                        pass
                 if case["addform"] == "decorator":
                     sk.add(supply=unwire(t))(rules[i])
                 else:
                     sk.add(rules[i], supply=unwire(t))
             if len(case["table"]) in case["early"]:
-                sk(scratch, interval=1)
+                try:
+                    sk(scratch, interval=1)
+                except REJECT:
+                    pass
             sw = sk(pool, interval=float(interval)) if case["final"] == "call" else sk.s(interval=float(interval)) >> pool
         else:
             sw = Stepwise(pool, rules[0], *[(unwire(t), rules[i]) for t, i in case["table"]], interval=float(interval))
